@@ -62,6 +62,46 @@ claim("C04", "DESIGN.md section 4 C04/C05 + section 11",
       "against the real callable after every captured name has been rebound or deleted.",
       "What inspect.getclosurevars / getattr report and source recovery are inputs of the model (validated by correspondence only). Non-positional parameter kinds are oracle-only.")
 
+claim("C03", "DESIGN.md section 4 C03 + section 11",
+      "proof (partial) over a token-level model of the source-recovery selection (_parse_source_for_lambda with fixes F15/F15b): safety for all token streams and all extent parsers "
+      "(finder_never_picks_neighbour: whatever is returned is the passed lambda), lambda/def separation, ambiguity => no pick, no crash of the selection logic, and liveness for the "
+      "segment-layout family (finder_supported_layouts_partial; every generated documented layout falls in it - evaluated per case, not proved). The pinned selection is refuted inside Coq. "
+      "Partial: the CPython tokenizer, untokenize/ast.parse of an extent, inspect.findsource/getsource and co_firstlineno are inputs tied by differential comparison on generated source files only; "
+      "liveness is not proved for chains continuing after a multi-line earlier argument, backslash continuations, or the def branch.",
+      "CPython 3.12.1 tokenize/inspect/ast are trusted inputs; marker-constant oracle identifies the implementation's pick.")
+claim("C07", "DESIGN.md section 4 C07-C10 + section 11",
+      "proof (partial): fill_is_bind - the model of _fill_in_default_arguments equals an independently written Signature.bind + apply_defaults specification for every signature "
+      "(distinct parameter names) and every acceptable call shape, including refusal of a missing required parameter; fill_keeps_positionals; own_operators_untouched. NOT proved: "
+      "calls_normalised over whole follow output (statement kept in Properties/C07.v); it is covered by exact correspondence of the follower model on generated class models and by the "
+      "inspect.Signature.bind oracle at lambda depths 0-3.",
+      "typing/inspect.signature/get_type_hints/MRO are represented by a class table read back from the live generated classes; the parameter filter and the index increment are read from source into a generated table.")
+claim("C08", "DESIGN.md section 4 C07-C10 + section 11",
+      "proof (partial): stream_item_types (Select gives the result type, SelectMany the element type, Where keeps the item type and requires bool), where_refuses_non_bool, binop_promotion, "
+      "where_bool_shapes, and the generic-inheritance witnesses by evaluation. NOT proved: follow_types_agree against a declarative typing relation (statement kept in Properties/C08.v); covered by "
+      "exact correspondence on random generic class models (inheritance, type variables, Iterable subclasses, collection classes) with independently computed expected types.",
+      "typing/inspect are represented by the class table read from live classes.")
+claim("C09", "DESIGN.md section 4 C07-C10 + section 11",
+      "proof (partial): local laws of the follower model - class_before_method (order, call sites seen, last rewrite emitted, metadata adjacency), no_callback_no_event, "
+      "no_spurious_events_untyped, nested_events_surface (all events of a nested operator lambda reach the enclosing stream; the emitted argument is the followed lambda), param_by_value. "
+      "NOT proved: callbacks_exact and a whole-chain metadata_upstream (statements kept in Properties/C09.v); covered by exact correspondence of invocation log, MetaData chain and emitted call sites "
+      "for 12 callback placements at lambda depths 0-2.",
+      "Callbacks are modelled by their observable effect (event, optional metadata, one of three rewrites).")
+claim("C10", "DESIGN.md section 4 C07-C10 + section 11",
+      "proof: untyped_passthrough / untyped_stream_ops / where_bool_shapes for every class table and callback table over the model of the follower: on an untyped stream every expression of the "
+      "stated grammar is emitted structurally unchanged with no events, or refused with a designed ValueError located in the expression; never a crash; Where keeps comparison/boolean bodies. "
+      "The grammar excludes calls of subscripted attributes of typed/literal receivers (residual finding, proved to crash outside the grammar) and builtin-class methods on constants.",
+      "literal_eval, isidentifier and keyword are hand-modelled (ASCII); ft_default and the table flags are regenerated from source. Residual known finding listed in KNOWN_FINDINGS.txt.")
+claim("C15", "DESIGN.md section 4 C15 + section 11",
+      "proof: exactness on trees - extract_exact / extract_only_unwraps / extract_all_found (the list is the pre-order list of the wrappers' dictionaries: an outer wrapper precedes those inside "
+      "its source) / extract_outer_first / extract_defined_iff; remove_exact / remove_idem / remove_none_iff; extract_no_md under 'MetaData is only used as a callee' with a counter-example otherwise. "
+      "The clause 'leaves the AST it was given unmodified' is established here by observation of the implementation (dump plus per-node identity snapshot incl. extra attributes); its heap-level theorem "
+      "is remove_preserves_input in C11's package.",
+      "literal_eval modelled on Constant/Tuple/List/Dict/unary +- with key de-duplication; sets, complex arithmetic, float keys and raw strings are excluded from the correspondence and counted.")
+claim("C17", "DESIGN.md section 4 C17 + section 11",
+      "proof: ext_exact / ext_complete / ext_idem / ext_fixpoints for the generated operator list and for any function_names list; ext_sem for every backend and environment under ops_kw_free "
+      "(method-form operator calls carry no keywords - the code drops them, which is outside the stated form seq.Op(args...)); first-order reference semantics.",
+      "Operator list regenerated from source and cross-checked against the imported module; pyref_lite is used only to find failing inputs.")
+
 ALL = ["C%02d" % i for i in range(1, 21)]
 PENDING = "not yet claimed: model, correspondence and proofs for this property are still being integrated (DESIGN.md section 10 staging)"
 
